@@ -40,6 +40,89 @@ Proof.
   rewrite Z.quot_mul by lia. f_equal. f_equal. lia.
 Qed.
 
+(* ------------------------------------------------------------------ the taker fee is exactly rounded *)
+Lemma chop_nonneg_lower : forall p q m, 0 < p -> 0 <= q -> m * p <= q -> m <= chop_round_nonneg p q.
+Proof.
+  intros p q m Hp Hq H. unfold chop_round_nonneg.
+  rewrite Z.quot_div_nonneg, Z.rem_mod_nonneg by lia.
+  assert (D : m <= q / p) by (apply Z.div_le_lower_bound; lia).
+  destruct (q mod p =? 0); [lia|].
+  destruct (q mod p ?= Z.quot p 2); try lia. destruct (Z.even (q / p)); lia.
+Qed.
+
+Lemma chop_nonneg_upper : forall p q m, 0 < p -> 0 <= q -> q <= m * p -> chop_round_nonneg p q <= m.
+Proof.
+  intros p q m Hp Hq H. unfold chop_round_nonneg.
+  rewrite Z.quot_div_nonneg, Z.rem_mod_nonneg by lia.
+  pose proof (Z.div_mod q p ltac:(lia)) as DM. pose proof (Z.mod_pos_bound q p Hp) as MB.
+  destruct (q mod p =? 0) eqn:E0.
+  - apply Z.eqb_eq in E0. nia.
+  - apply Z.eqb_neq in E0. assert (q / p < m) by nia.
+    destruct (q mod p ?= Z.quot p 2); try lia. destruct (Z.even (q / p)); lia.
+Qed.
+
+(* CalcTakerFeeExactOut returns exactly the ceiling of tokenIn / (1 - fee) *)
+Lemma calc_fee_out_ceil : forall amt f, 0 <= amt -> 0 <= f < P18 ->
+  exists c, calc_fee_out amt f = Ok (c, c - amt) /\ (c - 1) * (P18 - f) < amt * P18 <= c * (P18 - f).
+Proof.
+  intros amt f Ha Hf. pose proof P18_pos as HP. unfold calc_fee_out.
+  set (b := P18 - f). assert (Hb : 0 < b <= P18) by (unfold b; lia).
+  replace (b =? 0) with false by (symmetry; apply Z.eqb_neq; lia).
+  unfold d_quo, d_from_int.
+  set (q0 := Z.quot (amt * P18 * (P18 * P18)) b).
+  assert (Q0 : q0 = (amt * P18 * (P18 * P18)) / b) by (unfold q0; apply Z.quot_div_nonneg; nia).
+  assert (Q0pos : 0 <= q0) by (rewrite Q0; apply Z.div_pos; nia).
+  assert (CR : chop_round P18 q0 = chop_round_nonneg P18 q0).
+  { unfold chop_round. replace (q0 <? 0) with false by (symmetry; apply Z.ltb_ge; lia). reflexivity. }
+  rewrite CR. set (R := chop_round_nonneg P18 q0).
+  (* the true ceiling *)
+  set (c := (amt * P18 + b - 1) / b).
+  assert (C1 : (c - 1) * b < amt * P18 <= c * b).
+  { unfold c. pose proof (Z.div_mod (amt * P18 + b - 1) b ltac:(lia)). pose proof (Z.mod_pos_bound (amt * P18 + b - 1) b ltac:(lia)). nia. }
+  (* bounds on q0 *)
+  pose proof (Z.div_mod (amt * P18 * (P18 * P18)) b ltac:(lia)) as DM.
+  pose proof (Z.mod_pos_bound (amt * P18 * (P18 * P18)) b ltac:(lia)) as MB. rewrite <- Q0 in DM.
+  assert (RU : R <= c * P18).
+  { apply chop_nonneg_upper; try lia. (* q0 <= c*P18*P18 : b*q0 <= amt*P18^3 <= c*b*P18^2 *) nia. }
+  assert (Rpos : 0 <= R) by (apply (chop_nonneg_lower P18 q0 0); lia).
+  assert (RL : (c - 1) * P18 < R \/ (amt * P18 = c * b /\ R = c * P18)).
+  { destruct (Z.eq_dec (amt * P18) (c * b)) as [E|NE].
+    - right. split; [assumption|].
+      assert (q0 = c * P18 * P18).
+      { rewrite Q0. replace (amt * P18 * (P18 * P18)) with ((c * P18 * P18) * b) by nia. apply Z.div_mul. lia. }
+      apply Z.le_antisymm; [assumption|]. apply chop_nonneg_lower; lia.
+    - left. assert (S : (c - 1) * b + 1 <= amt * P18) by lia.
+      (* q0 >= ((c-1)*P18 + 1) * P18 *)
+      assert (((c - 1) * P18 + 1) * P18 <= q0).
+      { rewrite Q0. apply Z.div_le_lower_bound; [lia|]. nia. }
+      assert ((c - 1) * P18 + 1 <= R) by (apply chop_nonneg_lower; lia). lia. }
+  exists c. split; [|exact C1].
+  unfold d_ceil, d_truncate_int.
+  assert (EQ : Z.quot R P18 = R / P18) by (apply Z.quot_div_nonneg; lia).
+  assert (EM : Z.rem R P18 = R mod P18) by (apply Z.rem_mod_nonneg; lia).
+  rewrite EQ, EM.
+  pose proof (Z.div_mod R P18 ltac:(lia)) as DR. pose proof (Z.mod_pos_bound R P18 HP) as MR.
+  destruct RL as [RL|[E ER]].
+  - destruct (0 <? R mod P18) eqn:EZ.
+    + apply Z.ltb_lt in EZ. rewrite Z.quot_mul by lia. assert (R / P18 + 1 = c) by nia. f_equal. f_equal; lia.
+    + apply Z.ltb_ge in EZ. rewrite Z.quot_mul by lia. assert (R / P18 = c) by nia. f_equal. f_equal; lia.
+  - rewrite ER. rewrite Z.mod_mul by lia. cbn [Z.ltb Z.compare]. rewrite Z.div_mul, Z.quot_mul by lia. reflexivity.
+Qed.
+
+(* CalcTakerFeeExactIn: the amount swapped is the floor of tokenIn * (1 - fee), the fee is the rest *)
+Lemma calc_fee_in_floor : forall amt f, 0 <= amt -> 0 <= f <= P18 ->
+  let a := fst (calc_fee_in amt f) in let fee := snd (calc_fee_in amt f) in
+  a * P18 <= (P18 - f) * amt < (a + 1) * P18 /\ fee = amt - a /\ 0 <= fee <= amt.
+Proof.
+  intros amt f Ha Hf. pose proof P18_pos as HP. unfold calc_fee_in, d_truncate_int, d_mul_int. cbn [fst snd].
+  rewrite Z.quot_div_nonneg by nia.
+  pose proof (Z.div_mod ((P18 - f) * amt) P18 ltac:(lia)) as DM.
+  pose proof (Z.mod_pos_bound ((P18 - f) * amt) P18 HP) as MB.
+  assert (0 <= (P18 - f) * amt / P18) by (apply Z.div_pos; nia).
+  assert ((P18 - f) * amt / P18 <= amt) by (apply Z.div_le_upper_bound; nia).
+  repeat split; nia.
+Qed.
+
 (* keep the 18-decimal arithmetic folded: [simpl] on 10^18 mantissas explodes *)
 Arguments calc_fee_in : simpl never.
 Arguments calc_fee_out : simpl never.
@@ -874,6 +957,167 @@ Proof.
   destruct (route_out_loop P true s sender (h :: rest) (maxIn :: t0) dOutF amtF) as [[s' t]|e].
   - destruct F as [ts F]. rewrite F. reflexivity.
   - rewrite F. reflexivity.
+Qed.
+
+(* ------------------------------------------------------------------ composition at message level: exact-out *)
+(* the backward estimate only reads the pools on the route and the taker-fee table *)
+Lemma exp_ins_val_agree : forall route s s2 dOutF amtF,
+  (forall q, In q (map fst route) -> get_pool P (pools s2) q = get_pool P (pools s) q) ->
+  taker_fee s2 = taker_fee s ->
+  exp_ins_val s2 route dOutF amtF = exp_ins_val s route dOutF amtF.
+Proof.
+  induction route as [|[pid dIn] rest IH]; intros; cbn [exp_ins_val]; [reflexivity|].
+  rewrite (IH s s2) by (auto; intros; apply H; cbn [map fst In]; auto).
+  destruct (exp_ins_val s rest dOutF amtF) as [ins_rest|]; [|reflexivity].
+  destruct (next_out rest ins_rest dOutF amtF) as [dOut amtOut].
+  rewrite H by (cbn [map fst In]; auto). rewrite H0. reflexivity.
+Qed.
+
+(* the total of the first executed hop is the head of the backward estimate (fee-paying sender) *)
+Lemma out_loop_first_total : forall first s sender pid dIn rest m tl a1 dOutF amtF s' t,
+  fee_neutral s sender ->
+  exp_ins_val s ((pid, dIn) :: rest) dOutF amtF = Ok (a1 :: tl) ->
+  route_out_loop P first s sender ((pid, dIn) :: rest) (m :: tl) dOutF amtF = Ok (s', t) -> t = a1.
+Proof.
+  intros first s sender pid dIn rest m tl a1 dOutF amtF s' t FN E H.
+  cbn [exp_ins_val] in E.
+  destruct (exp_ins_val s rest dOutF amtF) as [ins_rest|] eqn:ER; [|discriminate].
+  destruct (next_out rest ins_rest dOutF amtF) as [dOut amtOut] eqn:N.
+  destruct (get_pool P (pools s) pid) as [p|] eqn:G; [|discriminate].
+  destruct (snd (calc_in P p dOut amtOut dIn (spread_of P p))) as [tin|] eqn:CI; [|discriminate].
+  destruct (calc_fee_out tin (taker_fee s dIn dOut)) as [[after fee0]|] eqn:CF; [|discriminate].
+  inversion E; subst a1 tl; clear E.
+  apply route_out_loop_inv in H. rewrite N in H. cbn [fst snd] in H.
+  destruct H as (p2 & s1 & cur & s2 & fee & G2 & _ & Md & C & _ & _).
+  rewrite G in G2; inversion G2; subst p2.
+  apply module_out_inv in Md. destruct Md as (p' & tout & SW & _ & _ & _ & St).
+  apply (law_calc_in_swap P L) in SW. rewrite CI in SW. inversion SW; subst cur.
+  apply settle_inv in St. destruct St as (_ & TF & WL & _).
+  assert (FN1 : fee_neutral s1 sender) by (unfold fee_neutral in *; rewrite TF, WL; assumption).
+  apply (charge_after_out _ _ _ _ _ _ _ _ FN1) in C. destruct C as (fee' & C).
+  rewrite TF, CF in C. inversion C. reflexivity.
+Qed.
+
+(* the first-hop check is vacuous when the total does not exceed the maximum *)
+Lemma out_loop_first_flag : forall s sender route m tl dOutF amtF s' t,
+  route_out_loop P false s sender route (m :: tl) dOutF amtF = Ok (s', t) -> t <= m ->
+  route_out_loop P true s sender route (m :: tl) dOutF amtF = Ok (s', t).
+Proof.
+  intros s sender route m tl dOutF amtF s' t H Hle. destruct route as [|[pid dIn] rest]; [discriminate|].
+  rewrite route_out_loop_step in *. unfold out_hop in *.
+  destruct (next_out rest tl dOutF amtF) as [dOut amtOut]. cbn [fst snd] in *.
+  destruct (get_pool P (pools s) pid) as [p|]; [|discriminate].
+  destruct (negb (is_active P p)); [discriminate|].
+  destruct (module_swap_exact_out P s sender pid p dIn m dOut amtOut (spread_of P p)) as [[s1 cur]|]; [|discriminate].
+  destruct (charge_taker_fee P s1 sender dIn cur dOut false) as [[s2 [after fee]]|]; [|discriminate].
+  cbn [andb] in *.
+  assert (T : t = after).
+  { destruct rest; [inversion H; reflexivity|].
+    destruct (route_out_loop P false s2 sender (p0 :: rest) tl dOutF amtF) as [[s3 t3]|]; inversion H; reflexivity. }
+  subst t. assert (X : m <? after = false) by (apply Z.ltb_ge; assumption). rewrite X. exact H.
+Qed.
+
+(* what one exact-out hop leaves untouched *)
+Lemma out_hop_frame : forall first s sender pid dIn maxIn dOut amtOut s' t,
+  out_hop first s sender pid dIn maxIn dOut amtOut = Ok (s', t) ->
+  taker_fee s' = taker_fee s /\ whitelisted s' = whitelisted s /\
+  (forall q, q <> pid -> get_pool P (pools s') q = get_pool P (pools s) q).
+Proof.
+  intros. unfold out_hop in H.
+  destruct (get_pool P (pools s) pid) as [p|]; [|discriminate].
+  destruct (negb (is_active P p)); [discriminate|].
+  destruct (module_swap_exact_out P s sender pid p dIn maxIn dOut amtOut (spread_of P p)) as [[s1 cur]|] eqn:Md; [|discriminate].
+  destruct (charge_taker_fee P s1 sender dIn cur dOut false) as [[s2 [after fee]]|] eqn:C; [|discriminate].
+  destruct (first && (maxIn <? after)); [discriminate|]. inversion H; subst.
+  apply module_out_inv in Md. destruct Md as (p' & tout & _ & _ & _ & _ & St).
+  apply settle_inv in St. destruct St as (S1 & S2 & S3 & _).
+  apply charge_inv in C. destruct C as (C1 & C2 & C3 & _).
+  repeat split; try congruence. intros. rewrite C1, S1. apply get_put_other; assumption.
+Qed.
+
+Lemma handle_swap_out : forall s sender route maxIn dOut amtOut,
+  handle P s (MSwapOut sender route maxIn dOut amtOut) =
+  if negb (match route with [] => true | _ => false end) && (0 <? amtOut) && (0 <? maxIn)
+  then route_exact_out P s sender route maxIn dOut amtOut else Err EInvalid.
+Proof.
+  intros. unfold handle, validate_basic.
+  destruct (negb (match route with [] => true | _ => false end) && (0 <? amtOut) && (0 <? maxIn)); reflexivity.
+Qed.
+
+Lemma route_exact_out_val : forall s sender h rest maxIn dOutF amtF,
+  route_exact_out P s sender (h :: rest) maxIn dOutF amtF =
+  match exp_ins_val s (h :: rest) dOutF amtF with
+  | Err e => Err e
+  | Ok [] => Ok (s, 0)
+  | Ok (_ :: t) => route_out_loop P true s sender (h :: rest) (maxIn :: t) dOutF amtF
+  end.
+Proof.
+  intros. unfold route_exact_out. rewrite expected_ins_val.
+  destruct (exp_ins_val s (h :: rest) dOutF amtF) as [[|a t]|]; reflexivity.
+Qed.
+
+Lemma exp_ins_cons : forall s pid dIn rest dOutF amtF a0 ins_rest,
+  exp_ins_val s ((pid, dIn) :: rest) dOutF amtF = Ok (a0 :: ins_rest) ->
+  exp_ins_val s rest dOutF amtF = Ok ins_rest /\
+  exp_ins_val s [(pid, dIn)] (fst (next_out rest ins_rest dOutF amtF)) (snd (next_out rest ins_rest dOutF amtF)) = Ok [a0].
+Proof.
+  intros s pid dIn rest dOutF amtF a0 ins_rest E. cbn [exp_ins_val] in *.
+  destruct (exp_ins_val s rest dOutF amtF) as [ir|] eqn:ER; [|discriminate].
+  cbn [next_out].
+  destruct (next_out rest ir dOutF amtF) as [dOut amtOut] eqn:N.
+  destruct (get_pool P (pools s) pid) as [p|] eqn:G; [|discriminate].
+  destruct (snd (calc_in P p dOut amtOut dIn (spread_of P p))) as [tin|] eqn:CI; [|discriminate].
+  destruct (calc_fee_out tin (taker_fee s dIn dOut)) as [[after fee0]|] eqn:CF; [|discriminate].
+  inversion E; subst. split; [reflexivity|]. rewrite N. cbn [fst snd]. rewrite CI, CF. reflexivity.
+Qed.
+
+(* a multi-hop exact-out message = the single-hop message for the first hop, buying exactly the estimated input of the
+   rest of the route, followed by the message for the rest with that estimate as its maximum *)
+Theorem swap_out_msg_compose : forall s sender pid dIn rest maxIn dOutF amtF s' t,
+  rest <> [] -> fee_neutral s sender -> ~ In pid (map fst rest) ->
+  handle P s (MSwapOut sender ((pid, dIn) :: rest) maxIn dOutF amtF) = Ok (s', t) ->
+  exists a1 s1 t',
+    estimate_out P s rest dOutF amtF = (s, Ok a1) /\
+    handle P s (MSwapOut sender [(pid, dIn)] maxIn (snd (hd (0, 0) rest)) a1) = Ok (s1, t) /\
+    handle P s1 (MSwapOut sender rest a1 dOutF amtF) = Ok (s', t').
+Proof.
+  intros s sender pid dIn rest maxIn dOutF amtF s' t NE FN NI H.
+  rewrite handle_swap_out in H. cbn [negb andb] in H.
+  destruct (0 <? amtF) eqn:VA; [|discriminate]. destruct (0 <? maxIn) eqn:VM; [|discriminate]. cbn [andb] in H.
+  rewrite route_exact_out_val in H.
+  destruct (exp_ins_val s ((pid, dIn) :: rest) dOutF amtF) as [ins|] eqn:E; [|discriminate].
+  pose proof (exp_ins_length _ _ _ _ _ E) as Len.
+  destruct ins as [|a0 ins_rest]; [simpl in Len; discriminate|].
+  destruct (exp_ins_cons _ _ _ _ _ _ _ _ E) as (ER & E1).
+  pose proof (exp_ins_length _ _ _ _ _ ER) as LenR.
+  destruct rest as [|[pid1 d1] rest']; [congruence|].
+  destruct ins_rest as [|a1 tl]; [simpl in LenR; discriminate|].
+  set (R := (pid1, d1) :: rest') in *.
+  assert (N : next_out R (a1 :: tl) dOutF amtF = (d1, a1)) by reflexivity.
+  rewrite N in E1. cbn [fst snd] in E1.
+  rewrite route_out_loop_step in H. rewrite N in H. cbn [fst snd] in H.
+  destruct (out_hop true s sender pid dIn maxIn d1 a1) as [[s2 after]|] eqn:HOP; [|discriminate].
+  assert (HL : exists t', route_out_loop P false s2 sender R (a1 :: tl) dOutF amtF = Ok (s', t') /\ after = t).
+  { unfold R in *. destruct (route_out_loop P false s2 sender ((pid1, d1) :: rest') (a1 :: tl) dOutF amtF) as [[s3 t3]|]; [|discriminate].
+    inversion H; subst. eauto. }
+  destruct HL as (t' & LOOP & Ha). subst after. clear H.
+  destruct (out_hop_frame _ _ _ _ _ _ _ _ _ _ HOP) as (TF & WL & PF).
+  assert (ER2 : exp_ins_val s2 R dOutF amtF = Ok (a1 :: tl)).
+  { rewrite <- ER. apply exp_ins_val_agree; [|assumption]. intros q Hq. apply PF. intro; subst; contradiction. }
+  assert (FN2 : fee_neutral s2 sender) by (unfold fee_neutral in *; rewrite TF, WL; assumption).
+  assert (T' : t' = a1) by (unfold R in *; eapply out_loop_first_total; eauto).
+  assert (Pa1 : 0 < a1).
+  { pose proof LOOP as LP. unfold R in LP. apply route_out_loop_inv in LP.
+    destruct LP as (p2 & s1 & cur & s4 & fee & _ & _ & Md & _). apply module_out_inv in Md.
+    destruct Md as (p' & tout & _ & Pc & Lc & _). lia. }
+  assert (X : 0 <? a1 = true) by (apply Z.ltb_lt; assumption).
+  exists a1, s2, t'. split; [|split].
+  - unfold estimate_out, R. fold R. rewrite expected_ins_val, ER. reflexivity.
+  - change (snd (hd (0, 0) R)) with d1. rewrite handle_swap_out. cbn [negb andb]. rewrite VM, X. cbn [andb].
+    rewrite route_exact_out_val, E1. rewrite route_out_loop_step. cbn [next_out fst snd]. rewrite HOP. reflexivity.
+  - rewrite handle_swap_out. unfold R at 1. cbn [negb andb]. rewrite VA, X. cbn [andb].
+    unfold R at 1. rewrite route_exact_out_val. fold R. rewrite ER2.
+    apply out_loop_first_flag; [exact LOOP|lia].
 Qed.
 
 End WithPool.
